@@ -1,5 +1,5 @@
 """Which units exist, and what each claimed property covers / does not cover (copied into evidence)."""
-UNITS = ['budget', 'scalars', 'events', 'location', 'live']
+UNITS = ['budget', 'scalars', 'events', 'location', 'live', 'reader']
 
 GLOBAL_ASSUMPTIONS = [
     'Verus 0.2026.09.13 and its bundled Z3 are sound; the extractor rewrite rules R0..R17 preserve meaning (DESIGN.md 3.2)',
@@ -25,8 +25,9 @@ PROPS = {
         assumptions=['history shorter than 2^64 events (counter room is a stated precondition of observe)'],
     ),
     'C09': dict(
-        covered=['LiveEvents implements the Events cursor contract for both input kinds through the same pump (look-ahead served first, peek does not consume)'],
-        not_covered=['ChunkedChars / RingReader byte handling (unit reader, planned); equality of saphyr-parser front ends; BOM stripping'],
+        covered=['ChunkedChars::next against an adversarial byte source that hands out ANY non-empty prefix per read (every chunking, including splits inside a code point): Some(c) means c is exactly the next UTF-8 character of the remaining bytes and exactly its bytes were consumed',
+                 'LiveEvents implements the Events cursor contract for both input kinds through the same pump (look-ahead served first, peek does not consume)'],
+        not_covered=['equality of saphyr-parser StrInput / BufferedInput front ends; encoding_rs_io decoding; BOM stripping; borrowed vs owned strings'],
         assumptions=[],
     ),
     'C01': dict(
@@ -88,8 +89,9 @@ PROPS = {
             'LiveEvents::next / peek: a stored reader error is reported as Error::IOError before any event (not even a buffered look-ahead) is handed out',
             'LiveEvents::finish: a stored reader error is reported at the end; otherwise a delayed budget breach is surfaced',
             'io_error: Ok exactly when the shared cell is empty',
+            'ChunkedChars::next: it signals end of input only when nothing is left, or after storing an error in the shared cell (reader error of ANY kind, EOF inside a code point, invalid lead byte / sequence, byte cap exceeded); total_bytes never exceeds the cap; at most 4 bytes are requested per character',
         ],
-        not_covered=['ChunkedChars::next storing the error / enforcing the byte cap (unit reader, planned)', 'that every reader entry point ends with finish(); writer side'],
+        not_covered=['BufReader / decoder read-ahead; that every reader entry point ends with finish(); writer side'],
         assumptions=['the shared error cell is read once at the start of next/peek/finish (interior mutability is modelled as a value fixed per call)'],
     ),
     'C11': dict(
